@@ -180,7 +180,8 @@ BACKENDS = {
     'cvc5': ['--cvc5'],
 }
 
-RES_RE = re.compile(r'^\[(\S+)\] line (\d+) (.*): (SUCCESS|FAILURE|UNKNOWN|ERROR)$', re.M)
+# the memory-leak property has no "line N" part: "[__CPROVER__start.memory-leak.1] dynamically allocated memory never freed in ...: FAILURE"
+RES_RE = re.compile(r'^\[(\S+)\] (?:line (\d+) )?(.*): (SUCCESS|FAILURE|UNKNOWN|ERROR)$', re.M)
 
 
 def classify(prop, desc):
@@ -214,7 +215,7 @@ def run_cbmc(work, q, cfile, entry, items, backend, timeout, trace_prop=None):
 def parse_results(out):
     res = []
     for m in RES_RE.finditer(out):
-        res.append({'prop': m.group(1), 'line': int(m.group(2)), 'desc': m.group(3), 'status': m.group(4),
+        res.append({'prop': m.group(1), 'line': int(m.group(2) or 0), 'desc': m.group(3), 'status': m.group(4),
                     'kind': classify(m.group(1), m.group(3))})
     return res
 
